@@ -103,6 +103,13 @@ def check_single_run(records: List[dict], *, returned: bool, nodes_started: int,
     ups: Dict[str, List[str]] = {u: [] for u in cn}
     for e in canon.get("edges", []):
         ups.setdefault(e["target"], []).append(e["source"])
+    # the canonical graph of a pipeline is a chain of pairwise distinct nodes in declaration order
+    if len(set(cn)) != len(cn):
+        return ("canonical-node-ids-not-distinct", f"pipeline_start lists node ids {cn}")
+    chain = [(cn[i - 1], cn[i]) for i in range(1, len(cn))]
+    emitted = [(e["source"], e["target"]) for e in canon.get("edges", [])]
+    if sorted(emitted) != sorted(chain):
+        return ("canonical-edges-not-the-declaration-chain", f"edges {emitted} for nodes {cn}")
     if end.get("run_id") != run_id:
         return ("ids-differ", f"pipeline_end.run_id {end.get('run_id')} != {run_id}")
     for i, s in enumerate(sers):
